@@ -138,12 +138,12 @@ where
     });
     let rp = json!({"kind":"triple","carrier":name,"status":s,"d1":d1,"d2":d2});
     match r {
-        None => rep.violation(
+        None => crate::viol!(rep, 
             format!("C02:panic:{}:{}", name, type_name(s)),
             format!("accessors of {} ({},{},{}) panicked", name, s, d1, d2),
             rp,
         ),
-        Some(None) => rep.violation(
+        Some(None) => crate::viol!(rep, 
             format!("C02:from_bytes-rejected:{}", name),
             format!("{}::from_bytes(({},{},{})) failed for a valid status byte", name, s, d1, d2),
             rp,
@@ -155,7 +155,7 @@ where
                 } else {
                     type_name(s).to_string()
                 };
-                rep.violation(
+                crate::viol!(rep, 
                     format!("C02:{}:{}:{}", which, name, class),
                     format!("{} ({:#04x},{},{}).{}: {}", name, s, d1, d2, which, detail),
                     rp,
@@ -166,7 +166,7 @@ where
             if !fuzzy_matches(s, ft)
                 || (ft.main_category() == MessageMainCategory::Channel) != (a.main == MessageMainCategory::Channel)
             {
-                rep.violation(
+                crate::viol!(rep, 
                     format!("C02:type-super_type:{}", type_name(s)),
                     format!(
                         "{:?}.super_type() = {:?} (main {:?}) but message main category is {:?}",
@@ -184,7 +184,7 @@ where
 
 pub fn run(cfg: &Cfg, rep: &mut Report) {
     rep.rule("all 128x128x128 valid (status>=0x80,d1,d2) triples x {Raw, Structured, Foreign}: every classifying method and field accessor compared with a hand-written MIDI 1.0 status table; non-trivial = triple with a non-zero data byte; distinct by enumeration");
-    let stride: usize = if cfg.as_c18 && !cfg.thorough { 5 } else { 1 };
+    let stride: usize = if cfg.as_c18 && !cfg.thorough { 5 } else if cfg.secondary && !cfg.thorough { 3 } else { 1 };
     par(cfg, rep, |shard, n, rep| {
         let mut evals = 0u64;
         let mut nontrivial = 0u64;
@@ -215,7 +215,7 @@ pub fn run(cfg: &Cfg, rep: &mut Report) {
         rep.evaluations += 1;
         let exp = TYPES.iter().find(|t| t.0 == b).map(|t| t.1);
         if r != Some(exp) {
-            rep.violation(
+            crate::viol!(rep, 
                 "C02:type-byte",
                 format!("ShortMessageType::try_from({}) = {:?}, expected {:?}", b, r, exp),
                 json!({"kind":"type-byte","byte":b}),
@@ -225,7 +225,7 @@ pub fn run(cfg: &Cfg, rep: &mut Report) {
             n_types += 1;
             let st = api("ShortMessageType::super_type", || t.super_type());
             if !matches!(st, Some(f) if fuzzy_matches(b, f)) {
-                rep.violation(
+                crate::viol!(rep, 
                     format!("C02:type-super_type:{}", type_name(b)),
                     format!("{:?}.super_type() = {:?}", t, st),
                     json!({"kind":"type-byte","byte":b}),
